@@ -433,12 +433,17 @@ func (c *Ctx) Run(tier string) {
 			{W1: 8, W2: 9, Size: 8000, Procs: 8000, Cycles: 20000, Len: 100, Fixed: 100, Rounds: 3},
 			{W1: 9, W2: 8, Size: 8000, Procs: 8000, Cycles: 20000, Len: 100, Fixed: 7900, Rounds: 3, Legacy: true},
 			{W1: 4, W2: 3, Size: 800, Procs: 63, Cycles: 999, Len: 20, Fixed: 401, Rounds: 5},
+			// many rounds (every round counted once: the tallies must add up to -r)
+			{W1: 1, W2: 0, Size: 13, Procs: 2, Cycles: 5, Len: 4, Fixed: 6, Rounds: 255},
+			{W1: 0, W2: 1, Size: 13, Procs: 2, Cycles: 5, Len: 4, Fixed: 6, Rounds: 1025},
+			{W1: 0, W2: 0, Size: 13, Procs: 2, Cycles: 3, Len: 4, Fixed: 6, Rounds: 4097},
+			{W1: 1, W2: 0, Size: 13, Procs: 2, Cycles: 5, Len: 4, Fixed: 6, Rounds: 70000},
 		} {
 			k.Note = "values between the grid's boundaries"
 			c.Check(k)
 		}
 	}
-	rep.Bound += "; one-warrior runs; -c 70000, -c 66000 -p 300, and -s 100003 -p 70000 -c 150000 (values beyond 16 bits); seven runs with values between the grid's boundaries (-s 256 / 800 / 4096 / 8000 / 55440 / 65536, -p 63 / 64 / 1000 / 8000 / 10000, -c 500 / 999 / 12345 / 20000, -l 20 / 100, -r 3 / 5 / 7 / 10)"
+	rep.Bound += "; one-warrior runs; -c 70000, -c 66000 -p 300, and -s 100003 -p 70000 -c 150000 (values beyond 16 bits); runs with values between the grid's boundaries (-s 256 / 800 / 4096 / 8000 / 55440 / 65536, -p 63 / 64 / 1000 / 8000 / 10000, -c 500 / 999 / 12345 / 20000, -l 20 / 100, -r 3 / 5 / 7 / 10), and -r 255 / 1025 / 4097 / 70000 on a one-cycle battle"
 	// presets
 	names := []string{"88", "icws", "nop94", "noptiny", "nop256", "nopnano"}
 	// imp vs imp runs to the preset's cycle limit (a tie); the ring fills the preset's process limit
